@@ -17,7 +17,8 @@ thread_local! {
     static LIVE: Cell<isize> = const { Cell::new(0) };
 }
 
-/// per-thread budget in bytes (default 8 GiB; `VERIF_ALLOC_BUDGET_MB` overrides, read by `init`)
+/// per-thread budget in bytes (set by `init`: 3/4 of the physical memory / number of workers, within [1, 8] GiB;
+/// `VERIF_ALLOC_BUDGET_MB` overrides)
 static LIMIT: AtomicIsize = AtomicIsize::new(8 << 30);
 /// largest per-thread live count observed (reported in the evidence)
 static PEAK: AtomicUsize = AtomicUsize::new(0);
@@ -25,6 +26,22 @@ static PEAK: AtomicUsize = AtomicUsize::new(0);
 pub fn init() {
     if let Some(mb) = std::env::var("VERIF_ALLOC_BUDGET_MB").ok().and_then(|s| s.parse::<isize>().ok()) {
         LIMIT.store(mb << 20, Ordering::Relaxed);
+        return;
+    }
+    // A defect that lives in per-thread state (a thread-local cache, say) makes EVERY worker run away at the same time: the
+    // budgets of all workers together must fit into the machine, or the kernel kills the process (no verdict) before one
+    // thread reaches its budget. Budget = 3/4 of the physical memory divided by the number of workers, within [1, 8] GiB.
+    let workers = std::env::var("VERIF_JOBS")
+        .ok()
+        .and_then(|s| s.parse::<usize>().ok())
+        .unwrap_or_else(|| std::thread::available_parallelism().map(|n| n.get()).unwrap_or(4))
+        .max(1);
+    let total_kb = std::fs::read_to_string("/proc/meminfo")
+        .ok()
+        .and_then(|t| t.lines().find(|l| l.starts_with("MemTotal:")).and_then(|l| l.split_whitespace().nth(1).and_then(|x| x.parse::<u64>().ok())));
+    if let Some(kb) = total_kb {
+        let per = (kb as u128 * 1024 * 3 / 4 / workers as u128) as isize;
+        LIMIT.store(per.clamp(1 << 30, 8 << 30), Ordering::Relaxed);
     }
 }
 
